@@ -53,6 +53,10 @@ type CallRec struct {
 	Body      string // RspError.Body, or the returned body on success (ppr)
 	Marker    uint64 // timestamp of the returned, parsed answer
 	HasRsp    bool   // ppr: a non-nil *http.Response came back
+	// bodyRef is the very slice the call handed back (RspError.Body or the success body). It is only
+	// read - into Body - at the end of the case, after every caller has finished and after one more
+	// submission through another client: what a caller holds must not change behind its back.
+	bodyRef []byte
 }
 
 type Outcome struct {
@@ -104,6 +108,17 @@ func (rt *scriptedRT) barrier(ctx context.Context, n int) bool {
 	case <-ctx.Done():
 		return false
 	}
+}
+
+// scrubRT answers every request 404 with a long filler body.
+type scrubRT struct{}
+
+func (scrubRT) RoundTrip(req *http.Request) (*http.Response, error) {
+	if req.Body != nil {
+		io.Copy(io.Discard, req.Body)
+		req.Body.Close()
+	}
+	return mkResponse(req, 404, nil, strings.Repeat("SCRUB-", 700)), nil
 }
 
 // stallErr mimics what http.Client.Timeout produces: a timeout error that Is context.DeadlineExceeded.
@@ -310,7 +325,7 @@ func classifyErr(err error) string {
 }
 
 // run executes the case inside a synctest bubble and returns the recorded trace.
-func run(t *testing.T, c Case) Outcome {
+func run(t *testing.T, c Case, outp *Outcome) {
 	want := procsAtStart
 	if c.Procs > 0 {
 		want = c.Procs
@@ -321,9 +336,10 @@ func run(t *testing.T, c Case) Outcome {
 	if runtime.GOMAXPROCS(0) != want {
 		runtime.GOMAXPROCS(want)
 	}
-	out := Outcome{Attempts: make([][]Attempt, len(c.Callers)), Calls: make([]CallRec, len(c.Callers))}
+	*outp = Outcome{Attempts: make([][]Attempt, len(c.Callers)), Calls: make([]CallRec, len(c.Callers))}
+	out := outp
 	res := vt.Run(t, 48*time.Hour, func(bctx context.Context) {
-		rt := &scriptedRT{start: time.Now(), c: c, out: &out, open: make([]int, len(c.Callers)), cctx: make([]context.Context, len(c.Callers)),
+		rt := &scriptedRT{start: time.Now(), c: c, out: out, open: make([]int, len(c.Callers)), cctx: make([]context.Context, len(c.Callers)),
 			arrived: map[int]int{}, release: map[int]chan struct{}{}}
 		for i := range rt.open {
 			rt.open[i] = -1
@@ -373,7 +389,7 @@ func run(t *testing.T, c Case) Outcome {
 						rec.HasRsp, rec.Status = true, rsp.StatusCode
 					}
 					if err == nil {
-						rec.Body, rec.Marker = string(body), parsed.Timestamp
+						rec.bodyRef, rec.Marker = body, parsed.Timestamp
 					}
 				case "addchain", "addprechain":
 					f := lc.AddChain
@@ -392,7 +408,7 @@ func run(t *testing.T, c Case) Outcome {
 					rec.ErrText = cerr.Error()
 					var re jsonclient.RspError
 					if errors.As(cerr, &re) {
-						rec.Status, rec.Body = re.StatusCode, string(re.Body)
+						rec.Status, rec.bodyRef = re.StatusCode, re.Body
 					}
 				}
 				rt.mu.Lock()
@@ -401,7 +417,21 @@ func run(t *testing.T, c Case) Outcome {
 			}(i)
 		}
 		wg.Wait()
+		// One more submission, through a second client, with a long distinct body; then look at what the
+		// callers were given.
+		if bctx.Err() == nil {
+			if lc2, err := client.New("http://other.test/", &http.Client{Transport: scrubRT{}}, jsonclient.Options{Logger: nopLogger{}}); err == nil {
+				for k := 0; k < 2; k++ {
+					var x ct.AddChainResponse
+					lc2.PostAndParse(bctx, ct.AddChainPath, &ct.AddChainRequest{}, &x)
+				}
+			}
+		}
+		for i := range out.Calls {
+			if out.Calls[i].bodyRef != nil {
+				out.Calls[i].Body = string(out.Calls[i].bodyRef)
+			}
+		}
 	})
 	out.TimedOut = res.TimedOut
-	return out
 }
